@@ -618,8 +618,21 @@ def havoc_mutable_scalars(it, inst, containers=False, memo_none=False):
             if isinstance(v, PyDict) and not v.d:
                 v.history = it.fresh('hist_' + a, IntS)
                 out.append(a)
+    def class_level_none(a):
+        stack2, seen3 = [inst.cls], set()
+        while stack2:
+            c = stack2.pop()
+            if not isinstance(c, ClassV) or c.name in seen3:
+                continue
+            seen3.add(c.name)
+            if a in c.attrs:
+                return c.attrs[a] is None
+            stack2.extend(c.bases)
+        return False
     for a in sorted(names):
         v = inst.attrs.get(a)
+        if a not in inst.attrs and memo_none and class_level_none(a):
+            inst.attrs[a] = None          # a class-level `slot = None` default that methods fill per instance
         if isinstance(v, bool):
             inst.attrs[a] = SV(it.fresh('obj_' + a, BoolS))
         elif isinstance(v, int):
